@@ -179,6 +179,11 @@ def cases(tier):
         for f1, f2 in itertools.product(FAILING, repeat=2):
             out.append(((f1, 'CLEAN', f2), 2, 'text', 1, conn, None))
             out.append(((f1, f2, 'CLEAN'), 2, 'json', 1, conn, None))
+    # boundary: a targets file with exactly one entry is still a multi-target run
+    for a in FAILING + HEALTHY:
+        for fmt in ('text', 'json'):
+            for th in (1, 2):
+                out.append(((a,), th, fmt, 0, conn, None))
     out += syntax_cases()
     return out
 
